@@ -3,6 +3,7 @@
 
 mod coll;
 mod scen;
+mod acc;
 mod values;
 mod view;
 mod vlock;
@@ -585,6 +586,8 @@ fn main() {
 			out.flush().unwrap();
 		} else if line.starts_with("v ") {
 			writeln!(out, "{}", values::run(&line)).unwrap();
+		} else if line.starts_with("a ") {
+			writeln!(out, "{}", acc::run(&line)).unwrap();
 			out.flush().unwrap();
 		} else {
 			cur.push(line);
